@@ -498,6 +498,9 @@ func TestRegress(t *testing.T) { checker.Regress(t) }
 
 func TestProp(t *testing.T) { checker.Prop(t, genCase) }
 
+// FuzzProp: the same generator driven by the native coverage-guided fuzzer (thorough tier only).
+func FuzzProp(f *testing.F) { checker.Fuzz(f, genCase) }
+
 // TestGrid: fixed reclaim-crossing scenarios (deterministic).
 func TestGrid(t *testing.T) {
 	vk.SetPhase("grid")
